@@ -42,6 +42,16 @@ PRIMS["barrier"] = {
 }
 
 PROPS = {
+    "C16": {
+        "modules": ["ALock.Props.C16"],
+        "prims": [],
+        "fields": [],
+        "monitors": [],
+        "assumptions": ["the verdict of rustc for X<T>: Send/Sync depends only on whether T: Send and T: Sync (checked: every unsafe impl header mentions only Send, Sync, ?Sized; thorough tier re-probes with a second set of witness types)",
+                        "the capability table (own / shr in lean/ALock/Markers.lean) lists everything the public API of each type lets a holder do; the API inventory extracted from /repo is compared with the committed one on every run"],
+        "partial": ["the soundness of the capabilities themselves (e.g. that a read guard only gives &T) is the subject of the other properties, not of this table",
+                    "non-generic types (Semaphore, Barrier, their guards and futures) have unconditional auto traits and are only covered by the lifetime probes"],
+    },
     "C09": {
         "modules": ["ALock.Props.C09"],
         "prims": ["barrier"],
